@@ -36,8 +36,9 @@ TECHNIQUE = "machine-checked proof in Rocq (Coq) (induction over the candidate l
 def impl_candidates(pred, ref, mname):
     from panoptica._functionals import _calc_matching_metric_of_overlapping_labels
     from panoptica.utils.processing_pair import UnmatchedInstancePair
-    up = UnmatchedInstancePair(pred, ref)
-    c = _calc_matching_metric_of_overlapping_labels(pred, ref, up.ref_labels, impl.metric(mname))
+    pc, rc = pred.copy(), ref.copy()            # the caller's arrays are never handed to the library (it must not modify them, but may)
+    up = UnmatchedInstancePair(pc, rc)
+    c = _calc_matching_metric_of_overlapping_labels(pc, rc, up.ref_labels, impl.metric(mname))
     return [(float(s), int(r), int(p)) for s, (r, p) in c]
 
 
@@ -77,6 +78,18 @@ def thresholds(rng, cands, mname):
     return ts
 
 
+def near_equal_pair(L):
+    """1-D: reference B (label 1, L+1 voxels) and A (label 2, L voxels), one prediction covering half of each: the two candidate
+    scores are distinct but agree to six decimals (IoU 1/3 vs 1/3*(1-2/(3L)), Dice 1/2 vs 1/2*(1-1/(2L))); the better pair
+    carries the HIGHER reference label"""
+    n = 2 * L + 1 + 8
+    ref = np.zeros((1, n), np.uint8); pred = np.zeros((1, n), np.uint8)
+    ref[0, 0:L] = 2
+    ref[0, L:2 * L + 1] = 1
+    pred[0, L // 2:L // 2 + L] = 1
+    return pred, ref
+
+
 def gen_pairs(ctx):
     rng = ctx.rng
     pairs = []
@@ -100,6 +113,9 @@ def gen_pairs(ctx):
         if rng.random() < 0.3:   # prediction spanning several references
             p = np.where(r != 0, 1, p).astype(p.dtype)
         pairs.append((p, r))
+    # chains: p1 covers most of A, p2 straddles A and B with its larger part in A (fallback to the second-best reference)
+    for _ in range(ctx.scale(20, 200)):
+        pairs.append(impl.chain_pair(rng))
     # label magnitudes at which the integer code of a (prediction, reference) pair crosses 2^8 / 2^16 / 2^32
     for _ in range(ctx.scale(24, 200)):
         pairs.append(impl.code_boundary_pair(rng))
@@ -160,6 +176,42 @@ def run(ctx):
                     if prev is not None and not set(mp.items()) <= set(prev.items()):
                         ctx.violation("a stricter threshold added a match", {**case, "lenient_matching": prev, "strict_matching": mp})
                     prev = mp
+    # large instances whose competing scores differ only from the 7th decimal on (the order must still be decided by the scores)
+    for L, mname, m2o in ([(10 ** 6, "IOU", False), (10 ** 6, "DSC", True)] if ctx.tier != "thorough" else
+                          [(l, m, o) for l in (10 ** 6, 3 * 10 ** 5) for m in ("IOU", "DSC") for o in (False, True)]):
+        pred, ref = near_equal_pair(L)
+        cands = impl_candidates(pred, ref, mname)
+        thr = 0.2
+        mp = impl_match(pred, ref, mname, thr, m2o)
+        case = {"near_equal_pair": L, "metric": mname, "threshold": thr, "m2o": m2o}
+        ctx.count(case, True)
+        ctx.bump(f"{mname}/near-equal scores on large instances")
+        if isinstance(mp, tuple):
+            ctx.violation("matching did not return a result: " + str(mp[1:]), {**case, "observed": mp})
+            continue
+        cmap = {(r, p): sc for sc, r, p in cands}
+        M = [(cmap[(r, p)], r, p) for p, r in mp.items() if (r, p) in cmap]
+        chk_in.append([False, m2o, fq(thr), enc_cands(cands), enc_cands(M)])
+        chk_meta.append((case, cands, mp))
+    # ... and scores that are Farey neighbours (distinct, equal to nine decimals): two predictions competing for one reference
+    import random as _random
+    for k in range(2 if ctx.tier != "thorough" else 8):
+        fseed = rng.randrange(10 ** 6)
+        pred, ref, frac = impl.farey_pair(_random.Random(fseed))
+        for m2o in (False, True):
+            cands = impl_candidates(pred, ref, "IOU")
+            thr = 0.25
+            mp = impl_match(pred, ref, "IOU", thr, m2o)
+            case = {"farey_pair_seed": fseed, "fractions": list(frac), "metric": "IOU", "threshold": thr, "m2o": m2o}
+            ctx.count(case, True)
+            ctx.bump("IOU/Farey-neighbour scores")
+            if isinstance(mp, tuple):
+                ctx.violation("matching did not return a result: " + str(mp[1:]), {**case, "observed": mp})
+                continue
+            cmap = {(r, p): sc for sc, r, p in cands}
+            M = [(cmap[(r, p)], r, p) for p, r in mp.items() if (r, p) in cmap]
+            chk_in.append([False, m2o, fq(thr), enc_cands(cands), enc_cands(M)])
+            chk_meta.append((case, cands, mp))
     res = engine_run(302, chk_in)
     for (case, cands, mp), o in zip(chk_meta, res):
         if o != 1:
@@ -200,6 +252,22 @@ def replay(path):
     m = d.get("metric", "IOU")
     cands = impl_candidates(pred, ref, m)
     print("candidates (score, ref, pred):", cands)
+    if "near_equal_pair" in d or "farey_pair_seed" in d:
+        if "farey_pair_seed" in d:
+            import random as _random
+            pred, ref, _ = impl.farey_pair(_random.Random(d["farey_pair_seed"]))
+        else:
+            pred, ref = near_equal_pair(d["near_equal_pair"])
+        m = d["metric"]
+        cands = impl_candidates(pred, ref, m)
+        mp = impl_match(pred, ref, m, d["threshold"], d["m2o"])
+        print("candidates (score, ref, pred):", [(repr(s_), r, p) for s_, r, p in cands])
+        print("implementation matching pred->ref:", mp)
+        cmap = {(r, p): sc for sc, r, p in cands}
+        M = [(cmap[(r, p)], r, p) for p, r in mp.items() if (r, p) in cmap] if not isinstance(mp, tuple) else []
+        o = engine_run(302, [[False, d["m2o"], fq(d["threshold"]), enc_cands(cands), enc_cands(M)]])[0]
+        print("specification (conflict-free, sound, maximal, best-first):", "holds" if o == 1 else "VIOLATED")
+        return 0 if o == 1 else 1
     if "threshold" not in d:
         return 1
     mp = impl_match(pred, ref, m, d["threshold"], d["m2o"])
